@@ -59,14 +59,13 @@ func runC13S3(r *Report) {
 			r.Undecided("C13/serve", key+":SpecFileHandler", "", "not found")
 			continue
 		}
-		why := specHandlerShape(p, fd)
+		why, bsObj := specHandlerShape(p, fd)
 		if why == "" {
 			r.OK("C13/serve", key+":SpecFileHandler", s3.pos(fd.Pos()), "")
 		} else {
 			r.Undecided("C13/serve", key+":SpecFileHandler", s3.pos(fd.Pos()), why)
 		}
 		// specFileBs: defined as []byte(SpecFile), never assigned
-		bsObj, _ := p.Pkg.Types.Scope().Lookup("specFileBs").(*types.Var)
 		okInit, assigned := false, false
 		for _, f := range p.Pkg.Syntax {
 			ast.Inspect(f, func(nd ast.Node) bool {
@@ -107,7 +106,7 @@ func runC13S3(r *Report) {
 				return true
 			})
 		}
-		r.Check(okInit && !assigned, "C13/serve", key+":specFileBs", "", "specFileBs is not initialised as []byte(SpecFile) or is written/aliased somewhere in the package")
+		r.Check(bsObj != nil && okInit && !assigned, "C13/serve", key+":served bytes", "", "the package-level byte slice the handler serves is not initialised as []byte(SpecFile) or is written/aliased somewhere in the package")
 	}
 	r.FloorMin("programs with SpecFile constant", n, 40)
 }
@@ -132,32 +131,33 @@ func itoa(i int) string {
 }
 
 // specHandlerShape: return http.HandlerFunc(func(rw, r) { rw.Header().Set(..); rw.WriteHeader(200); _, err := rw.Write(specFileBs); if err != nil { LogError(..) } })
-func specHandlerShape(p *Program, fd *ast.FuncDecl) string {
+func specHandlerShape(p *Program, fd *ast.FuncDecl) (string, *types.Var) {
 	info := p.Pkg.TypesInfo
 	c := &rmCtx{p: p, info: info}
 	if len(fd.Body.List) != 1 {
-		return "SpecFileHandler body is not a single return"
+		return "SpecFileHandler body is not a single return", nil
 	}
 	ret, ok := fd.Body.List[0].(*ast.ReturnStmt)
 	if !ok || len(ret.Results) != 1 {
-		return "SpecFileHandler body is not a single return"
+		return "SpecFileHandler body is not a single return", nil
 	}
 	conv, ok := ret.Results[0].(*ast.CallExpr)
 	if !ok || len(conv.Args) != 1 {
-		return "does not return http.HandlerFunc(func…)"
+		return "does not return http.HandlerFunc(func…)", nil
 	}
 	fl, ok := conv.Args[0].(*ast.FuncLit)
 	if !ok {
-		return "does not return http.HandlerFunc(func…)"
+		return "does not return http.HandlerFunc(func…)", nil
 	}
 	var names []*ast.Ident
 	for _, f := range fl.Type.Params.List {
 		names = append(names, f.Names...)
 	}
 	if len(names) != 2 {
-		return "handler parameters"
+		return "handler parameters", nil
 	}
 	rw := info.Defs[names[0]]
+	var served *types.Var
 	writes, headers, hdrIdx, wIdx, whIdx := 0, 0, -1, -1, -1
 	for i, st := range fl.Body.List {
 		ast.Inspect(st, func(nd ast.Node) bool {
@@ -179,8 +179,10 @@ func specHandlerShape(p *Program, fd *ast.FuncDecl) string {
 				}
 				o := identObj(info, call.Args[0])
 				v, _ := o.(*types.Var)
-				if v == nil || v.Parent() != p.Pkg.Types.Scope() || v.Name() != "specFileBs" {
+				if v == nil || v.Parent() != p.Pkg.Types.Scope() {
 					writes += 100
+				} else {
+					served = v
 				}
 			case sel.Sel.Name == "WriteHeader" && c.isObj(sel.X, rw):
 				headers++
@@ -195,13 +197,13 @@ func specHandlerShape(p *Program, fd *ast.FuncDecl) string {
 		})
 	}
 	if writes != 1 {
-		return "the handler does not write exactly once the package-level specFileBs"
+		return "the handler does not write exactly once a package-level byte slice", nil
 	}
 	if headers != 1 {
-		return "the handler does not call WriteHeader(200) exactly once"
+		return "the handler does not call WriteHeader(200) exactly once", nil
 	}
 	if !(hdrIdx < whIdx && whIdx < wIdx) {
-		return "order is not header, status, body"
+		return "order is not header, status, body", nil
 	}
-	return ""
+	return "", served
 }
